@@ -154,8 +154,17 @@ def build_unit(unit_dir, out_path, mutate=None, neg_control=False, bodies=None):
     pieces = []
     last_flag = False
     item_list = []
-    for inc in u.get("include", []):
-        iu = load_unit(os.path.join(os.path.dirname(unit_dir.rstrip("/")), inc))
+    def _includes(unit, acc):
+        for inc in unit.get("include", []):
+            iu = load_unit(os.path.join(os.path.dirname(unit_dir.rstrip("/")), inc))
+            if iu["id"] in [x["id"] for x in acc]:
+                continue
+            _includes(iu, acc)
+            if iu["id"] not in [x["id"] for x in acc]:
+                acc.append(iu)
+        return acc
+    for iu in _includes(u, []):
+        inc = iu["id"]
         icl = os.path.join(iu["_dir"], "clauses.txt")
         if os.path.exists(icl):
             try:
